@@ -577,11 +577,17 @@ class Retrieve:
 
         # Remove the reader from _active_readers
         self._active_readers.remove(reader)
-        for shnum in list(self.remaining_sharemap.keys()):
-            self.remaining_sharemap.discard(shnum, reader.server)
-
         if f.check(BadShareError):
+            # Only this share is known to be bad: other shares held by the
+            # same server may be perfectly usable, and might be the only
+            # ones left.
+            self.remaining_sharemap.discard(shnum, reader.server)
             self.notify_server_corruption(server, shnum, str(f.value))
+        else:
+            # We could not talk to the server: give up on everything it
+            # holds.
+            for other_shnum in list(self.remaining_sharemap.keys()):
+                self.remaining_sharemap.discard(other_shnum, reader.server)
 
     def _download_current_segment(self):
         """
